@@ -60,6 +60,22 @@ class Rig:
         r = self.rnd
         ctl = msggen.r_controls(r)
         problems = []
+        if self.role == "server" and r.random() < 0.2:
+            # a response whose kind does not match the request (id 2 is an extended request): the library may accept or
+            # refuse it - C12 only says that the stream holds the message iff the call succeeded
+            name = msggen.r_text(r)
+            kind = r.randrange(2)
+            try:
+                if kind == 0:
+                    self.s.search_result_entry(2, name, [], controls=ctl)
+                    exp = M.SearchResultEntry(2, ctl or [], name, [])
+                else:
+                    self.s.search_result_reference(2, [name], controls=ctl)
+                    exp = M.SearchResultReference(2, ctl or [], [name])
+            except Exception:  # noqa: BLE001
+                return problems   # the call failed: nothing of it may be in the stream (checked by the caller against pending())
+            self.segs.extend(self.split(exp.pack(self.opts)))
+            return problems
         if self.role == "server":
             k = r.randrange(3)
             if k == 0:
